@@ -163,8 +163,8 @@ def w_ppm(ctx, rng, i):
                 ctx.check("vectorise", got.shape == mx.shape and np.allclose(got, onex[perm], rtol=1e-12, atol=1e-15),
                           f"ppm.theory_BER({dec}) on an array in the order {perm.tolist()} differs from the element-by-element values: {got} vs {onex[perm]}")
             ctx.check("monotone", np.all(np.diff(vec) <= 2e-3 * vec[:-1] + 2 * SOFT_ATOL), f"ppm.theory_BER({dec}) is not non-increasing in mu: {vec}")
-        ctx.raises("errors", ValueError, P.theory_BER, mu, s0, s1, int(rng.choice([3, 5, 6, 12, 100])), "hard")
-        ctx.raises("errors", ValueError, P.theory_BER, mu, s0, s1, M, "medium")
+        ctx.probe("ppm.M_not_power_of_two", P.theory_BER, mu, s0, s1, int(rng.choice([3, 5, 6, 12, 100])), "hard")
+        ctx.probe("ppm.other_decision", P.theory_BER, mu, s0, s1, M, "medium")        # (probe: the statement has no rejection clause)
     ctx.case(("ppm", M, round(math.log10(s0)), round(math.log10(s1 / s0), 1), round(mu / s)), sample=dict(mu=mu, s0=s0, s1=s1, M=M, hard=hard, soft=soft) if i < 3 else None)
     ctx.bin("M", M)
 
@@ -323,7 +323,7 @@ def w_model(ctx, rng, i):
             ctx.check("model.p_ase", U.p_ase(False) == 0, "p_ase(amplify=False) != 0")
     else:
         with core.quiet():
-            ctx.raises("errors", ValueError, U.p_ase, True, 1550e-9, None, 5, 1e11)
+            ctx.probe("p_ase.missing_gain", U.p_ase, True, 1550e-9, None, 5, 1e11)
     ctx.case(("model", modulation, M, p["amplify"], round(p["P_avg"] / 10), round(math.log10(p["R_L"])), p["NF_el"] > 0, np.isfinite(p["ER"])), sample=dict(modulation=modulation, M=M, **p) if i < 3 else None)
     ctx.bin("amplify", p["amplify"])
 
